@@ -254,6 +254,22 @@ def held(wp):
                 G=[list(r) for r in E['self.m_G'].m], h=list(E['self.m_h'].c))
 
 
+def run_update(wp, head, n, q, m, path):
+    """program_t::update<head..> walked in the environment `wp` already holds (the program the constructor built), at arbitrary (x, u, v) and an
+    arbitrary previous state; returns (function, env prefix of the state, (x, u, v))"""
+    fn = astload.find_definition(TU, FLT, 'update', lambda d: (astload.template_args(d) or [''])[0].startswith(head))
+    kx, ku, kv, kmiu, kst = [k for k, _ in wp.bind_params(fn)]
+    x, u, v = list(wp.vec(kx, 'x', n).c), list(wp.vec(ku, 'u', m).c), list(wp.vec(kv, 'v', q).c)
+    wp.scalar(kmiu, 'miu')
+    wp.scalar(kst + '.m_fx', 'fx0'), wp.scalar(kst + '.m_eta', 'eta0')
+    wp.vec(kst + '.m_rdual', 'rdual0', n), wp.vec(kst + '.m_rprim', 'rprim0', q), wp.vec(kst + '.m_rcent', 'rcent0', m)
+    nob = len(wp.obligations)
+    wp.post = lambda w, rv: []
+    wp.run(fn, path)
+    del wp.obligations[nob:]                                 # the walk's own obligations are those of residuals.update_vcs
+    return fn, kst, (x, u, v)
+
+
 def ctor_vcs(n, p, m, hasQ, pr, info):
     path = astload.REPO + '/' + TU
     wp, ctor, P = walk_ctor(n, p, m, hasQ, pr)
@@ -309,16 +325,7 @@ def ctor_vcs(n, p, m, hasQ, pr, info):
         out.append(g.vc('KKT matrix buffer: the off-diagonal blocks of m_lmat are m_A\' and m_A, the lower-right block is 0', [], conj(cl), line=line))
     # ---- program_t::update on the program just built: what the caller is told
     for which, head in residuals.UPDATE_HEADS[:1]:
-        fn = astload.find_definition(TU, FLT, 'update', lambda d: (astload.template_args(d) or [''])[0].startswith(head))
-        kx, ku, kv, kmiu, kst = [k for k, _ in wp.bind_params(fn)]
-        x, u, v = list(wp.vec(kx, 'x', n).c), list(wp.vec(ku, 'u', m).c), list(wp.vec(kv, 'v', q).c)
-        wp.scalar(kmiu, 'miu')
-        wp.scalar(kst + '.m_fx', 'fx0'), wp.scalar(kst + '.m_eta', 'eta0')
-        wp.vec(kst + '.m_rdual', 'rdual0', n), wp.vec(kst + '.m_rprim', 'rprim0', q), wp.vec(kst + '.m_rcent', 'rcent0', m)
-        nob = len(wp.obligations)
-        wp.post = lambda w, rv: []
-        wp.run(fn, path)
-        del wp.obligations[nob:]                                 # the walk's own obligations are those of residuals.update_vcs
+        fn, kst, (x, u, v) = run_update(wp, head, n, q, m, path)
         S = lambda f: wp.env[f'{kst}.{f}']
         callers = dict(Q=P['Q'], c=P['c'], A=Ar, b=br, G=P['G'], h=P['h'])
         ut = [f'(* (/ {mufx} {dG}) {t})' for t in u]
